@@ -363,6 +363,10 @@ def feature_problems(rd, fams, seed, tier):
             ent += gen_features.subclass_family()
         elif fam == 'impossible':
             ent += gen_features.impossible_family()
+        elif fam == 'inactive':
+            ent += gen_features.inactive_family()
+        elif fam == 'unify':
+            ent += gen_features.unify_family()
     return write_feature_problems(rd, ent), {n: s_ for n, p, s_ in ent}
 
 
